@@ -68,7 +68,7 @@ def r18_1(ctx, fx):
         code = fn.calls(r"Multihash(<.*>)?::code$")
         ctx.anchor("R18.1", "from_multihash: Multihash::code", len(code), 1, cfg=fx.cfg)
         oks = fn.aggregates(r"^peer_id::PeerId$")
-        ctx.anchor("R18.1", "from_multihash: PeerId aggregates", len(oks), 2, cfg=fx.cfg)
+        ctx.anchor("R18.1", "from_multihash: PeerId aggregates", len(oks), 1, cfg=fx.cfg)
         if code:
             cl = code[0].dest[0]
             # (a) equality with u64::from(Code::Sha2_256)
@@ -103,15 +103,20 @@ def r18_1(ctx, fx):
                           "and the reference, so every id the constructor produces parses back)" % rels)
             ctx.anchor("R18.1", "from_multihash: code==Sha2_256 edge / identity switch edge / len<=MAX edge", min(len(sha_edges), len(id_edges), len(len_edges)), 1, cfg=fx.cfg)
             n_sha = n_id = 0
-            for node, s in oks:
+            sha_t = fn.reach([n for sw, lab in sha_edges for n, l in fn.succs(sw) if l == lab])
+            len_t = fn.reach([n for sw, lab in len_edges for n, l in fn.succs(sw) if l == lab])
+            for i, (node, s) in enumerate(oks):
+                # every path to the Ok passes the sha edge, or passes both the identity edge and the length edge (one Ok site may serve
+                # both classes: `if is_sha || is_inline { Ok(..) }`)
                 via_sha = node not in fn.reach([fn.entry], cut=sha_edges)
                 via_id = node not in fn.reach([fn.entry], cut=id_edges) and node not in fn.reach([fn.entry], cut=len_edges)
-                n_sha += via_sha
-                n_id += via_id and not via_sha
-                ctx.ob("R18.1", "from_multihash/Ok#%d-only-for-sha256-or-short-identity" % (n_sha + n_id), via_sha or via_id, site=fn.site(node), cfg=fx.cfg,
-                       detail="behind code==SHA2-256: %s; behind code==identity and digest.len()<=MAX_INLINE_KEY_LENGTH: %s" % (via_sha, via_id))
+                either = node not in fn.reach([fn.entry], cut=sha_edges | id_edges) and node not in fn.reach([fn.entry], cut=sha_edges | len_edges)
+                n_sha += node in sha_t
+                n_id += node in len_t
+                ctx.ob("R18.1", "from_multihash/Ok#%d-only-for-sha256-or-short-identity" % (i + 1), via_sha or via_id or either, site=fn.site(node), cfg=fx.cfg,
+                       detail="behind code==SHA2-256: %s; behind code==identity and digest.len()<=MAX_INLINE_KEY_LENGTH: %s; behind one of the two on every path: %s" % (via_sha, via_id, either))
                 rs = guards.rootstrs(fn, s["rv"]["ops"][0])
-                ctx.ob("R18.1", "from_multihash/Ok#%d-carries-the-input-multihash" % (n_sha + n_id), rs <= {"param:_1", "call:std::convert::Into::into", "call:<T as std::convert::Into<U>>::into"} and "param:_1" in rs,
+                ctx.ob("R18.1", "from_multihash/Ok#%d-carries-the-input-multihash" % (i + 1), rs <= {"param:_1", "call:std::convert::Into::into", "call:<T as std::convert::Into<U>>::into"} and "param:_1" in rs,
                        site=fn.site(node), cfg=fx.cfg, detail="roots: %s" % sorted(rs))
             ctx.ob("R18.1", "from_multihash/both-accepted-classes-present", n_sha >= 1 and n_id >= 1, site=fn.site(fn.entry), cfg=fx.cfg,
                    detail="Ok sites behind sha256: %d, behind identity: %d (SHA2-256 ids and inline identities must both parse)" % (n_sha, n_id))
@@ -289,7 +294,8 @@ def r18_4(ctx, fx):
     fn = ctx.fn(fx, P + "from_bytes", "R18.4")
     if fn is None:
         return
-    mh = [c for c in fn.calls(r"multihash::Multihash(<.*>)?::\w+$") if not c.from_macro]
+    # the calls that make a Multihash (parsers / constructors); accessors such as code() / digest() - used for logging - are not parsers
+    mh = [c for c in fn.calls(r"multihash::Multihash(<.*>)?::\w+$") if not c.from_macro and c.dest and "Multihash" in fn.locals[c.dest[0]]]
     names = sorted({c.name.rsplit("::", 1)[-1] for c in mh})
     rsrc, ver = refsrc.source("libp2p-identity", "src/peer_id.rs")
     m = re.search(r"pub fn from_bytes\(data: &\[u8\]\).*?\n    \}", rsrc or "", re.S)
